@@ -27,7 +27,7 @@ RULE = (
 )
 ASSUMPTIONS = [
     "unwind states are compared as canonical text of the evaluator's ProcedureState (return column, personality, LSDA, current and initial row, remember stack)",
-    "an insertion exactly at a .cfi_startproc is not judged for coverage (the listing does not say on which side of the directive it goes)",
+    "an insertion exactly at a .cfi_startproc is not judged for coverage (the listing does not say on which side of the directive it goes); this includes a .cfi_startproc that is keyed to the end of the preceding block, a layout the library produces itself",
     "x86-64 ELF only; personality/LSDA symbols are not generated here (their travel is C04/C18/C19 material)",
 ]
 TRUSTED = ["harness/emodify.py, harness/irdump.py; the real evaluate_cfi_directives as the meaning of a directive stream (C15)"]
@@ -76,13 +76,15 @@ def rows_of(m, idm=None):
         table = cfi_directives.get(m) or {}
         base = {s: min((bi.address for bi in s.byte_intervals if bi.address is not None), default=0) for s in m.sections}
         proc = -1
-        blocks = [b for b in m.code_blocks]
+        # layout order: the evaluator sorts by address only and keeps the caller's order among equals, so a
+        # zero-sized block must be handed over before the block that starts at the same address
+        blocks = sorted(m.code_blocks, key=lambda b: (b.address if b.address is not None else -1, b.size != 0, b.offset))
         for blk, off, st in evaluate_cfi_directives(m, blocks):
             names = [d[0] for d in table.get(blk, {}).get(off, [])]
             proc += names.count(".cfi_startproc")
             rows.append([blk.section.name, blk.address - base[blk.section] + off, proc if st is not None else -1,
                          state_text(st) if st is not None else "", idm.of(blk) if idm is not None else 0, off,
-                         ".cfi_endproc" in names])
+                         ".cfi_endproc" in names, ".cfi_startproc" in names])
     except Exception as e:  # noqa: BLE001
         return "%s: %s" % (type(e).__name__, str(e)[:100])
     return rows
@@ -134,6 +136,19 @@ def decorate(case, rng):
             if n == len(run) - 1:
                 cfi.setdefault(offs[-1], []).append([".cfi_endproc", [], None])
             d["cfi"] = sorted([k, v] for k, v in cfi.items())
+    # the opening directives of a procedure may hang on the end of the previous code block (the same address):
+    # the library itself produces this layout when it deletes the first block of a procedure
+    for i in range(1, len(text)):
+        d, p = text[i], text[i - 1]
+        if d["kind"] == "code" and p["kind"] == "code" and d.get("cfi") and d["cfi"][0][0] == 0 \
+                and d["cfi"][0][1][0][0] == ".cfi_startproc" and rng.random() < 0.3:
+            opening = d["cfi"].pop(0)[1]
+            end = emodify.block_layout(p)[-1]
+            pc = dict((k, v) for k, v in (p.get("cfi") or []))
+            pc.setdefault(end, []).extend(opening)
+            p["cfi"] = sorted([k, v] for k, v in pc.items())
+            if not d["cfi"]:
+                del d["cfi"]
     return case
 
 
